@@ -24,7 +24,7 @@ const BINDINGS: [(&str, &str); 9] = [
     ("for _, NAME in next, {} do\nBODY\nend\n", "generic-for-2"),
 ];
 
-const USES: [(&str, &str); 24] = [
+const USES: [(&str, &str); 28] = [
     ("local _ = NAME\n", "read"),
     ("local _ = NAME.floor\n", "field"),
     ("local _ = NAME.a.b\n", "deep-field"),
@@ -49,6 +49,10 @@ const USES: [(&str, &str); 24] = [
     ("while NAME.getn({}) do break end\n", "loop-condition"),
     ("for _ = NAME.pi, NAME.floor(2.5) do end\n", "for-bounds"),
     ("show(function() return NAME.floor(1.5), NAME.getn end)\n", "closure-body"),
+    ("local keep = 1, NAME.floor(1.5)\nshow(keep)\n", "surplus-local-value"),
+    ("y4 = 0, NAME.getn({})\n", "surplus-assigned-value"),
+    ("NAME(1, 2)\n", "call-deprecated-argument"),
+    ("local _ = NAME(1, x0), NAME.new(\"a\", x0)\n", "call-deprecated-argument-expr"),
 ];
 
 /// scope-boundary wrappers for open bindings: (text, the use is inside the binding's scope)
@@ -90,7 +94,7 @@ pub fn generate(seed: u64, n: usize, thorough: bool) -> Cases {
         let ds = catch_unwind(AssertUnwindSafe(|| ck.test_on(&ast))).ok()?;
         Some((ast, ds))
     };
-    // the whole matrix is 12 x 9 x 24 x 2 = 5184 programs; quick samples it, thorough enumerates it
+    // the whole matrix is 12 x 9 x 28 x 2 = 6048 programs; quick samples it, thorough enumerates it
     let mut combos: Vec<(usize, usize, usize)> = Vec::new();
     for r in 0..ROOTS.len() {
         for b in 0..BINDINGS.len() {
